@@ -141,6 +141,17 @@ def exec_case(case):
     stl = g.get("stl", 0)
     pool = STL_POOL if stl else POOL
     ids = id_of(pool)
+    g.setdefault("cfgE", 1)          # config.complete_edges_from_faces while building, saving and loading
+    g.setdefault("objE", 1)          # config.export_edges_in_obj
+    saved_cfg = (M.config.complete_edges_from_faces, M.config.export_edges_in_obj)
+    M.config.complete_edges_from_faces, M.config.export_edges_in_obj = bool(g["cfgE"]), bool(g["objE"])
+    try:
+        return _exec_case(case, g, M, stl, pool, ids)
+    finally:
+        M.config.complete_edges_from_faces, M.config.export_edges_in_obj = saved_cfg
+
+
+def _exec_case(case, g, M, stl, pool, ids):
     if g["family"] == "reference-writer":
         # the file comes from the reference writer: the specification's own (unbuilt) mesh is what it must mean
         src = None
@@ -249,6 +260,12 @@ def run(ctx):
                     att0.append({"on": on, "name": "a_" + on, "type": typ, "dim": rng.choice([1, 1, 2, 3]), "gen": gen, "dense": rng.randint(0, 1)})
             cases.append({"id": "self-%s-%d" % (name, rep), "given": {"family": name, "m0": {"V": V, "E": s["E"], "F": s["F"], "C": s["C"]}, "att0": att0},
                           "events": [{"f": f, "how": "self"} for f in FORMATS]})
+            if rep == 0 and (s["F"] or s["C"]) :
+                # the two configuration switches that change a format's edge vocabulary
+                cases.append({"id": "noE-%s" % name, "given": {"family": name + "/edges-not-completed", "cfgE": 0, "m0": {"V": V, "E": s["E"], "F": s["F"], "C": s["C"]}, "att0": []},
+                              "events": [{"f": f, "how": "self"} for f in ("obj", "mesh", "geogram_ascii")]})
+                cases.append({"id": "noObjE-%s" % name, "given": {"family": name + "/no-edges-in-obj", "objE": 0, "m0": {"V": V, "E": s["E"], "F": s["F"], "C": s["C"]}, "att0": []},
+                              "events": [{"f": "obj", "how": "self"}]})
             if s["F"] and all(len(f) in (3, 4) for f in s["F"]) and rep == 0:
                 Vs = [[rng.randint(1, len(STL_POOL)) for _ in range(3)] for _ in range(s["nv"])]
                 cases.append({"id": "stl-%s-%d" % (name, rep), "given": {"family": name, "stl": 1, "m0": {"V": Vs, "E": s["E"], "F": s["F"], "C": []}},
